@@ -591,6 +591,7 @@ def rule_set_scope(ctx):
     obs = []
     from .rules_hir5 import pat_hids
     n = 0
+    cg_ = callgraph(ctx)
 
     def set_args(call):
         out = []
@@ -655,7 +656,7 @@ def rule_set_scope(ctx):
                 if hid is None:
                     continue
                 # calls inside the recursion itself (same SCC) pass the set on: only entries into the search count
-                if callee.key == fn.key:
+                if callee.key == fn.key or fn.key in cg_.reachable([callee.key]):
                     continue
                 n += 1
                 inst = '%s->%s' % (short(fn.path), short(callee.path))
